@@ -148,6 +148,8 @@ pub struct GenCfg {
     pub scalar_subquery: bool,
     /// NOT IN over a correlated subquery (the optimizer does not terminate for some statistics)
     pub correlated_not_in: bool,
+    /// ORDER BY keys that are not in the select list
+    pub order_non_selected: bool,
     pub max_depth: usize,
 }
 
@@ -195,6 +197,7 @@ impl GenCfg {
             count_star_in_subquery: true,
             scalar_subquery: true,
             correlated_not_in: true,
+            order_non_selected: true,
             max_depth: 3,
         }
     }
@@ -346,6 +349,9 @@ pub struct Query {
     pub having: Option<E>,
     /// (index into select, desc)
     pub order_by: Vec<(usize, bool)>,
+    /// further ORDER BY keys that are not in the select list (after the selected ones)
+    #[serde(default)]
+    pub order_extra: Vec<(E, Ty, bool)>,
     pub limit: Option<u64>,
     pub offset: Option<u64>,
 }
@@ -462,6 +468,23 @@ impl Query {
     pub fn print(&self, d: Dialect) -> String {
         self.print_opts(d, true, true)
     }
+    /// The query with its non-selected ORDER BY keys appended to the select list (so that the
+    /// complete sort key is visible in the result); the first `self.select.len()` columns are the
+    /// original ones.
+    pub fn augmented(&self) -> Query {
+        let mut q = self.clone();
+        for (e, ty, desc) in q.order_extra.drain(..) {
+            q.order_by.push((q.select.len(), desc));
+            q.select.push((e, ty));
+        }
+        q
+    }
+
+    /// Un-limited form used as the reference for LIMIT/OFFSET results (see `augmented`).
+    pub fn print_unlimited(&self, d: Dialect) -> String {
+        self.augmented().print_opts(d, true, false)
+    }
+
     pub fn print_opts(&self, d: Dialect, with_order: bool, with_limit: bool) -> String {
         let mut s = String::from("select ");
         if self.distinct {
@@ -511,12 +534,13 @@ impl Query {
         if let Some(h) = &self.having {
             s.push_str(&format!(" having {}", h.print(d)));
         }
-        if with_order && !self.order_by.is_empty() {
-            let ks: Vec<String> = self
+        if with_order && (!self.order_by.is_empty() || !self.order_extra.is_empty()) {
+            let mut ks: Vec<String> = self
                 .order_by
                 .iter()
                 .map(|(i, desc)| format!("{}{}", self.select[*i].0.print(d), if *desc { " desc" } else { "" }))
                 .collect();
+            ks.extend(self.order_extra.iter().map(|(e, _, desc)| format!("{}{}", e.print(d), if *desc { " desc" } else { "" })));
             s.push_str(&format!(" order by {}", ks.join(", ")));
         }
         if with_limit {
@@ -572,8 +596,11 @@ impl Query {
         if self.distinct {
             f.push("distinct");
         }
-        if !self.order_by.is_empty() {
+        if !self.order_by.is_empty() || !self.order_extra.is_empty() {
             f.push("order-by");
+        }
+        if !self.order_extra.is_empty() {
+            f.push("order-by-non-selected");
         }
         if self.limit.is_some() || self.offset.is_some() {
             f.push("limit-offset");
@@ -873,6 +900,7 @@ impl<'a, 'b> Gen<'a, 'b> {
             group_by: vec![],
             having: None,
             order_by: vec![],
+            order_extra: vec![],
             limit: None,
             offset: None,
         }))
@@ -948,6 +976,7 @@ impl<'a, 'b> Gen<'a, 'b> {
             group_by: vec![],
             having: None,
             order_by: vec![],
+            order_extra: vec![],
             limit: None,
             offset: None,
         }
@@ -1173,6 +1202,7 @@ impl<'a, 'b> Gen<'a, 'b> {
         }
         // ORDER BY / LIMIT
         let mut order_by = vec![];
+        let mut order_extra: Vec<(E, Ty, bool)> = vec![];
         let mut limit = None;
         let mut offset = None;
         if self.cfg.order_limit && (self.cfg.distinct_complex || !distinct) {
@@ -1183,6 +1213,18 @@ impl<'a, 'b> Gen<'a, 'b> {
                     if !order_by.iter().any(|(j, _)| *j == i) {
                         order_by.push((i, self.t.chance(1, 3)));
                     }
+                }
+            }
+            if self.cfg.order_non_selected && mode == 0 && !distinct && self.t.chance(1, 5) {
+                // a key that is not in the select list: a column of the scope (or an expression)
+                let c = scope[self.t.pick(scope.len())].clone();
+                let e = if self.t.chance(1, 4) && c.ty == Ty::Int {
+                    E::Neg(Box::new(Self::col_expr(&c)))
+                } else {
+                    Self::col_expr(&c)
+                };
+                if !select.iter().any(|(s, _)| *s == e) {
+                    order_extra.push((e, c.ty, self.t.chance(1, 3)));
                 }
             }
             if self.t.chance(1, 4) {
@@ -1200,6 +1242,7 @@ impl<'a, 'b> Gen<'a, 'b> {
             group_by,
             having,
             order_by,
+            order_extra,
             limit,
             offset,
         }
@@ -1332,6 +1375,7 @@ impl<'a, 'b> Gen<'a, 'b> {
                 }
                 q.group_by = new_keys;
                 q.order_by.clear();
+                q.order_extra.clear();
             }
         }
         q
